@@ -87,9 +87,11 @@ def _val(x):
     return float(x) if not isinstance(x, str) else x
 
 
-def check_model(net, bounds, P, stats):
+def check_model(net, bounds, P, stats, origin=None):
     import numpy as np
     from cobra.flux_analysis import flux_variability_analysis
+
+    from .. import origins
 
     mets, rxns = families.as_data(net, bounds)
     ids = [r[0] for r in rxns]
@@ -108,8 +110,17 @@ def check_model(net, bounds, P, stats):
         if st != OPT:
             stats["no_optimum"] = stats.get("no_optimum", 0) + 1
             continue
+        if origin:
+            # the same model reached by another public route (copy, file format, rolled-back context, ...)
+            model = families.build_model(mets, rxns)
         model.objective = {model.reactions.get_by_id(r): c for r, c in obj.items()}
         model.objective_direction = direction
+        if origin:
+            try:
+                model = origins.derive(model, origin)
+            except origins.OriginUnavailable:
+                stats["origin_unavailable"] = stats.get("origin_unavailable", 0) + 1
+                continue
         cache = {}
         for opts in option_variants(ids, P["opt_dev"]):
             f = opts["fraction"]
@@ -117,10 +128,14 @@ def check_model(net, bounds, P, stats):
                 continue  # outside the property's precondition
             case = {"net": [list(c) for c in net], "bounds": [[_j(a), _j(b)] for a, b in bounds],
                     "objective": obj, "direction": direction, "options": opts}
+            if origin:
+                case["origin"] = origin
 
             def bad(check, detail, **extra):
                 s = {"check": check, "loopless": opts["loopless"], "pfba": opts["pfba_factor"] is not None,
                      "fraction": f, "direction": direction, "list": opts["reaction_list"]}
+                if origin:
+                    s["origin"] = origin
                 if opts["loopless"]:
                     s["objective_in_cycle"] = objective_in_cycle(rxns, mets, obj)
                 s.update(extra)
@@ -147,7 +162,7 @@ def check_model(net, bounds, P, stats):
                 stats["forced_loop_skipped"] = stats.get("forced_loop_skipped", 0) + 1
                 continue
             if opts["reaction_list"] == "all":
-                rl, req = None, ids
+                rl, req = None, [r.id for r in model.reactions]   # model order (== ids unless the origin re-ordered)
             elif opts["reaction_list"] == "first_id":
                 rl, req = [ids[0]], [ids[0]]
             else:
@@ -356,6 +371,13 @@ def run_task(payload):
     for net in payload["nets"]:
         net = tuple(tuple(c) for c in net)
         for bounds in families.bound_assignments(net, P["d"], P["menu"]):
+            if payload.get("origins"):
+                from .. import origins
+
+                for origin in origins.ORIGINS:
+                    stats["models_from_origins"] = stats.get("models_from_origins", 0) + 1
+                    violations.extend(check_model(net, bounds, P, stats, origin))
+                continue
             stats["models"] = stats.get("models", 0) + 1
             violations.extend(check_model(net, bounds, P, stats))
     return {"violations": violations[:300], "stats": stats}
@@ -369,7 +391,7 @@ def replay(case):
 
         out = check_spelling_and_history(net, bounds, {})
         return [{"sig": s, "detail": d} for s, c, d in out if json.loads(json.dumps(c)) == case]
-    out = check_model(net, bounds, params("thorough"), {})
+    out = check_model(net, bounds, params("thorough"), {}, case.get("origin"))
     return [{"sig": s, "detail": d} for s, c, d in out
             if c["objective"] == case["objective"] and c["direction"] == case["direction"]
             and c["options"] == case["options"]]
@@ -397,6 +419,10 @@ def explore(ctx):
     cyc = [n for n in families.networks(PS["nm"], PS["nr"], PS["K"]) if has_internal_cycle(n)
            and (ctx.thorough or len(n) <= 3 or sum(1 for c in n if families.is_boundary(c)) >= 1)]
     payloads += [{"params": PS, "nets": cyc[i:i + 2], "spelling_history": True} for i in range(0, len(cyc), 2)]
+    # origins: the alternative-route networks, reached by every other public route (mc/origins.py)
+    PO = dict(routes[0], d=1 if ctx.thorough else 0, opt_dev=1, objs=2)
+    orig_nets = [n for n in families.networks(PO["nm"], PO["nr"], PO["K"]) if routes[1](n)]
+    payloads += [{"params": PO, "nets": orig_nets[i:i + 2], "origins": True} for i in range(0, len(orig_nets), 2)]
     stats = {}
     with ctx.pool(timeout=3000) as pool:
         for i, status, res in pool.imap(payloads):
@@ -418,6 +444,11 @@ def explore(ctx):
                 % (P["nm"], P["nr"], len(P["menu"]), P["d"], P["opt_dev"]),
         "exhaustive": True, "networks": len(nets), "models": stats.get("models", 0), "stats": stats,
         "exactlp_selftest_lps": n_self,
+        "origins_pass": "%d networks with two boundary and two internal reactions x %d origins (%s): %d models; the route "
+                        "itself failed for %d (judged by C03/C10/C11/C12)" % (
+                            len(orig_nets), len(__import__("mc.origins", fromlist=["ORIGINS"]).ORIGINS),
+                            ", ".join(__import__("mc.origins", fromlist=["ORIGINS"]).ORIGINS),
+                            stats.get("models_from_origins", 0), stats.get("origin_unavailable", 0)),
         "spelling_history_pass": "%d members with an internal cycle x <=1 bound deviation: every internal reaction written "
                                  "backwards (loopless/plain x fraction 1/0.5), and histories FVA / add reaction / FVA / remove "
                                  "reaction / FVA on one model object (%d models)" % (len(cyc), stats.get("models_spelling_history", 0)),
